@@ -1,9 +1,16 @@
 /-
-C08 — concrete witnesses: the full agreement statement is false of the current gadget.
-Each theorem evaluates both models on explicit data (kernel `decide`), over `ℤ` with a small
-explicit state-mixing map as the permutation parameter and the smallest configuration shapes
-(digest length 1). The same three situations are replayed on the real Rust code on every run
-(`corpus/c08/f_c08_{1,2,3}_*.json`).
+C08 — concrete witnesses. Each theorem evaluates both models on explicit data (kernel `decide`),
+over `ℤ` with a small explicit state-mixing map as the permutation parameter and the smallest
+configuration shapes (digest length 1). The same situations are replayed on the real Rust code on
+every run (`corpus/c08/f_c08_{1,2,3}_*.json`).
+
+* §1 (arity 4, cap + bridge) is a defect of the gadget for every setting of the build-time
+  checks: the full agreement statement for arity 4 is false.
+* §2, §3 are RECORDS of the gadget without the width check / height gate (`Checks.none`, the tree
+  before fixes/C08-2 / fixes/C08-3): they show that the corresponding hypotheses of
+  `mmcs_agree_arity2_partial` cannot be dropped for that gadget. They say nothing about the
+  repaired gadget, for which `…_repaired` below show the same inputs are refused at build time
+  and `mmcs_agree_arity2_checked` holds without those hypotheses.
 
 Also: non-vacuity of the hypotheses of `mmcs_agree_arity2_partial`.
 -/
@@ -44,18 +51,19 @@ the gadget's schedule loop stops at once (`4 > num_roots = 4` is false), compare
 digest with the cap entry and the runner rejects. -/
 theorem arity4_cap_bridge_disagree :
     isOk (verifyBatch wperm c4 1 cap4 dims4 0 [[10], [20]] [H4 [11]]) = true ∧
-    (verifyCircuit4 wperm pc4 cap4 dims4 [0, 0] [[10], [20]] [H4 [11]]).1 = .reject := by
+    (verifyCircuit4 Checks.none wperm pc4 cap4 dims4 [0, 0] [[10], [20]] [H4 [11]]).1 = .reject ∧
+    (verifyCircuit4 Checks.all wperm pc4 cap4 dims4 [0, 0] [[10], [20]] [H4 [11]]).1 = .reject := by
   decide
 
-/-- The full statement for arity 4 is false. -/
+/-- The full statement for arity 4 is false (with or without the build-time shape checks). -/
 theorem mmcs_agree_arity4_false :
     ¬ ∀ (perm : List Int → List Int) (capHeight : Nat) (cap : List (List Int)) (dims : List Dim) (index : Nat)
         (bits : List Int) (opened proof : List (List Int)),
         isOk (verifyBatch perm c4 capHeight cap dims index opened proof) = true →
-        (verifyCircuit4 perm pc4 cap dims bits opened proof).1 = .ok := by
+        (verifyCircuit4 Checks.all perm pc4 cap dims bits opened proof).1 = .ok := by
   intro h
   have := h wperm 1 cap4 dims4 0 [0, 0] [[10], [20]] [H4 [11]] arity4_cap_bridge_disagree.1
-  rw [arity4_cap_bridge_disagree.2] at this
+  rw [arity4_cap_bridge_disagree.2.2] at this
   cases this
 
 /-! ### 2. arity 2: shifted row boundary (no width check in the gadget) -/
@@ -71,10 +79,10 @@ def rootS : List Int := C2 [H2 [1, 2, 3, 4, 5, 6, 7, 8], [99]]
 theorem shifted_row_boundary_disagree :
     -- honest opening: both accept
     isOk (verifyBatch wperm c2 0 [rootS] dimsS 0 [[1, 2, 3], [4, 5, 6, 7, 8]] [[99]]) = true ∧
-    (verifyCircuit2 wperm pc2 [rootS] dimsS [0] [[1, 2, 3], [4, 5, 6, 7, 8]] [[99]]).1 = .ok ∧
+    (verifyCircuit2 Checks.none wperm pc2 [rootS] dimsS [0] [[1, 2, 3], [4, 5, 6, 7, 8]] [[99]]).1 = .ok ∧
     -- the last element of row 0 moved to the front of row 1: native `WrongWidth`, gadget accepts
     errIs .wrongWidth (verifyBatch wperm c2 0 [rootS] dimsS 0 [[1, 2], [3, 4, 5, 6, 7, 8]] [[99]]) = true ∧
-    (verifyCircuit2 wperm pc2 [rootS] dimsS [0] [[1, 2], [3, 4, 5, 6, 7, 8]] [[99]]).1 = .ok := by
+    (verifyCircuit2 Checks.none wperm pc2 [rootS] dimsS [0] [[1, 2], [3, 4, 5, 6, 7, 8]] [[99]]).1 = .ok := by
   decide
 
 /-! ### 3. arity 2: claimed height off the ladder (no geometry gate in the gadget) -/
@@ -85,11 +93,33 @@ def rootG : List Int :=
 theorem height_off_ladder_disagree :
     -- dimensions (8×1, 4×2): both accept
     isOk (verifyBatch wperm c2 0 [rootG] [⟨8, 1⟩, ⟨4, 2⟩] 0 [[1], [2, 3]] [[91], [92], [93]]) = true ∧
-    (verifyCircuit2 wperm pc2 [rootG] [⟨8, 1⟩, ⟨4, 2⟩] [0, 0, 0] [[1], [2, 3]] [[91], [92], [93]]).1 = .ok ∧
+    (verifyCircuit2 Checks.none wperm pc2 [rootG] [⟨8, 1⟩, ⟨4, 2⟩] [0, 0, 0] [[1], [2, 3]] [[91], [92], [93]]).1 = .ok ∧
     -- claimed dimensions (8×1, 3×2): native `IncompatibleHeights`, gadget accepts
     errIs .incompatibleHeights
       (verifyBatch wperm c2 0 [rootG] [⟨8, 1⟩, ⟨3, 2⟩] 0 [[1], [2, 3]] [[91], [92], [93]]) = true ∧
-    (verifyCircuit2 wperm pc2 [rootG] [⟨8, 1⟩, ⟨3, 2⟩] [0, 0, 0] [[1], [2, 3]] [[91], [92], [93]]).1 = .ok := by
+    (verifyCircuit2 Checks.none wperm pc2 [rootG] [⟨8, 1⟩, ⟨3, 2⟩] [0, 0, 0] [[1], [2, 3]] [[91], [92], [93]]).1 = .ok := by
+  decide
+
+/-! ### the same inputs on the repaired gadget (regression records) -/
+
+/-- With the width check (fixes/C08-2) the shifted opening does not build; the honest one is
+still accepted. -/
+theorem shifted_row_boundary_repaired :
+    (verifyCircuit2 ⟨false, true, false⟩ wperm pc2 [rootS] dimsS [0] [[1, 2, 3], [4, 5, 6, 7, 8]] [[99]]).1 = .ok ∧
+    (verifyCircuit2 ⟨false, true, false⟩ wperm pc2 [rootS] dimsS [0] [[1, 2], [3, 4, 5, 6, 7, 8]] [[99]]).1 = .buildErr := by
+  decide
+
+/-- With the height gate (fixes/C08-3) the off-ladder claim does not build; the honest one is
+still accepted. -/
+theorem height_off_ladder_repaired :
+    (verifyCircuit2 ⟨true, false, false⟩ wperm pc2 [rootG] [⟨8, 1⟩, ⟨4, 2⟩] [0, 0, 0] [[1], [2, 3]] [[91], [92], [93]]).1 = .ok ∧
+    (verifyCircuit2 ⟨true, false, false⟩ wperm pc2 [rootG] [⟨8, 1⟩, ⟨3, 2⟩] [0, 0, 0] [[1], [2, 3]] [[91], [92], [93]]).1 = .buildErr := by
+  decide
+
+/-- A cap with more entries than `2^index_bits.len()` (fixes/C08-4): panic before, build error after. -/
+theorem cap_taller_than_index_record :
+    (verifyCircuit2 Checks.none wperm pc2 [rootS, rootS, rootS, rootS] dimsS [0] [[1, 2, 3], [4, 5, 6, 7, 8]] [[99]]).1 = .panic ∧
+    (verifyCircuit2 ⟨false, false, true⟩ wperm pc2 [rootS, rootS, rootS, rootS] dimsS [0] [[1, 2, 3], [4, 5, 6, 7, 8]] [[99]]).1 = .buildErr := by
   decide
 
 /-! ### non-vacuity of the hypotheses of `mmcs_agree_arity2_partial` -/
@@ -111,3 +141,6 @@ end P3R.C08.Witness
 #print axioms P3R.C08.Witness.mmcs_agree_arity4_false
 #print axioms P3R.C08.Witness.shifted_row_boundary_disagree
 #print axioms P3R.C08.Witness.height_off_ladder_disagree
+#print axioms P3R.C08.Witness.shifted_row_boundary_repaired
+#print axioms P3R.C08.Witness.height_off_ladder_repaired
+#print axioms P3R.C08.Witness.cap_taller_than_index_record
